@@ -799,7 +799,8 @@ Section LoopPure.
                   (cat_rows_in _ _ _ _ _ HLC Hle Hl) (cat_rows_in _ _ _ _ _ HRC Hre Hr)) as E1.
     pose proof (eval_keys_pure li ri L R on data WF l0 r0
                   (cat_rows_in _ _ _ _ _ HLC Hle Hl0) (cat_rows_in _ _ _ _ _ HRC Hre Hr0)) as E2.
-    fold lcols rcols in E1, E2. rewrite <- K1, <- K3 in E1. rewrite <- K2, <- K4 in E2.
+    cbv zeta in E1, E2. unfold lcols, rcols in K1, K2, K3, K4.
+    rewrite <- K1, <- K3 in E1. rewrite <- K2, <- K4 in E2.
     rewrite E1 in E2. now injection E2.
   Qed.
 
@@ -915,3 +916,247 @@ Section LoopPure.
       destruct HLC as [_ _ _ Hp]. now rewrite <- concat_map_flat.
   Qed.
 End LoopPure.
+
+(* ------------------------------------------------------------------ *)
+(* Part F: hash path = nested loop, for a conjunction of equalities     *)
+(* ------------------------------------------------------------------ *)
+
+(* hash_faithful: for the key values that meet in a comparison of ON, "compare = 0" and "same
+   %v text" (after -0 -> 0) coincide.  True by definition unless both are numbers; for two numbers
+   it says that the printed text identifies the double (and excludes NaN, which prints as "NaN"
+   but is not equal to itself) *)
+Definition hash_faithful (li : string) (L R : list value) (on : expr stmt) : Prop :=
+  forall op pa pb l r a b, In (op, pa, pb) (on_cmps on) -> In l L -> In r R ->
+    pair_read li l r pa = Ok a -> pair_read li l r pb = Ok b ->
+    (vcompare (norm_zero a) (norm_zero b) = Ok 0%Z <->
+     fmt_value (norm_zero a) = fmt_value (norm_zero b)).
+
+Lemma hash_sem f e :
+  hash_join_analyze e = true ->
+  forall b, on_sem f e = Ok b ->
+  (b = true <-> forall op pa pb, In (op, pa, pb) (on_cmps e) -> vcompare (f pa) (f pb) = Ok 0%Z).
+Proof.
+  induction e; cbn; try discriminate; intros Hh b Hb.
+  - apply andb_prop in Hh. destruct Hh as [H1 H2].
+    destruct (on_sem f e1) as [x| | |] eqn:E1; cbn in Hb; try discriminate.
+    destruct (on_sem f e2) as [y| | |] eqn:E2; cbn in Hb; try discriminate.
+    injection Hb as <-. rewrite andb_true_iff, (IHe1 H1 x eq_refl), (IHe2 H2 y eq_refl). split.
+    + intros [Ha Hb] op pa pb Hin. apply in_app_or in Hin. destruct Hin; eauto.
+    + intros H. split; intros op pa pb Hin; apply (H op); apply in_or_app; auto.
+  - destruct op; try discriminate. destruct e1; try discriminate. destruct e2; try discriminate.
+    destruct (vcompare (f path) (f path0)) as [z| | |] eqn:Ez; cbn in Hb; try discriminate.
+    injection Hb as <-. cbn. split.
+    + intros Hz op pa pb [[= <- <- <-]|[]]. apply Z.eqb_eq in Hz. now subst.
+    + intros H. specialize (H OpEq path path0 (or_introl eq_refl)). rewrite Ez in H.
+      injection H as ->. reflexivity.
+Qed.
+
+Lemma flat_map_find {Y} k (G : list value -> list Y) c :
+  NoDup (ckeys c) ->
+  flat_map (fun re => if String.eqb k (fst re) then G (crows re) else []) c =
+  match cat_find k c with Some (_, rs) => G rs | None => [] end.
+Proof.
+  unfold cat_find. induction c as [|e c IH]; cbn; intros Hn; [reflexivity|].
+  inversion Hn as [|? ? Hni Hn']; subst. rewrite (String.eqb_sym (fst e) k).
+  destruct (String.eqb k (fst e)) eqn:E.
+  - apply String.eqb_eq in E. subst k. destruct e as [k' [km rs]]. cbn.
+    rewrite (flat_map_ext_in _ (fun _ => [])), flat_map_nil_fn, app_nil_r; [reflexivity|].
+    intros re Hre. destruct (String.eqb k' (fst re)) eqn:E'; [|reflexivity].
+    apply String.eqb_eq in E'. exfalso. apply Hni. cbn. rewrite E'. now apply in_map.
+  - rewrite IH by assumption. reflexivity.
+Qed.
+
+Lemma cat_find_in k c x : cat_find k c = Some x -> In (k, x) c.
+Proof.
+  unfold cat_find. destruct (find _ c) as [e|] eqn:E; [|discriminate]. intros [= <-].
+  apply find_some in E. destruct E as [Hin He]. apply String.eqb_eq in He. subst k.
+  now destruct e.
+Qed.
+
+Lemma mapM_ext_in {X Y} (f g : X -> res Y) l : (forall x, In x l -> f x = g x) -> mapM f l = mapM g l.
+Proof.
+  induction l as [|x l IH]; cbn; intros H; [reflexivity|].
+  rewrite (H x) by auto. rewrite IH by auto. reflexivity.
+Qed.
+
+Section HashPure.
+  Variables (li ri : string) (L R : list value) (on : expr stmt) (data : row).
+  Hypothesis WF : wf_join li ri L R on.
+  Hypothesis HF : hash_faithful li L R on.
+  Hypothesis HA : hash_join_analyze on = true.
+
+  Let lcols := map (col_of li) (on_cmps on).
+  Let rcols := map (col_of ri) (on_cmps on).
+  Variables (lcat rcat : list centry).
+  Hypothesis HLC : catalog_of lcols L lcat.
+  Hypothesis HRC : catalog_of rcols R rcat.
+
+  (* text keys agree <-> the pair satisfies every equality of ON *)
+  Lemma holds_iff_texts l r : In l L -> In r R ->
+    (holdsp li on l r = true <-> map fmt_value (kvals lcols l) = map fmt_value (kvals rcols r)).
+  Proof.
+    intros Hl Hr. pose proof (wf_ne _ _ _ _ _ WF) as Hne.
+    unfold holdsp. rewrite <- (zero_safe_sem li ri L R on WF l r Hl Hr).
+    destruct (on_sem_total li ri L R on WF l r Hl Hr) as [b Hb].
+    rewrite <- (zero_safe_sem li ri L R on WF l r Hl Hr) in Hb. rewrite Hb.
+    rewrite (hash_sem _ _ HA b Hb).
+    unfold kvals, lcols, rcols. rewrite !map_map.
+    destruct WF as [_ _ _ Hs _ _ _ _ _].
+    split.
+    - intros H. apply map_ext_in. intros [[op pa] pb] Hc.
+      destruct (cmp_cols_in _ _ _ _ Hc) as [Hpa Hpb].
+      destruct (pair_read_ok li ri L R on WF l r pa Hl Hr Hpa) as [Ea _].
+      destruct (pair_read_ok li ri L R on WF l r pb Hl Hr Hpb) as [Eb _].
+      pose proof (proj1 (HF op pa pb l r _ _ Hc Hl Hr Ea Eb) (H op pa pb Hc)) as Ht.
+      unfold fraw in Ht. cbn [col_of].
+      destruct (wf_on_cmp _ _ _ _ _ _ Hs Hc) as [[H1 H2]|[H1 H2]].
+      + rewrite H1, (hd_is_excl _ _ _ Hne H1) in *. rewrite (hd_is_excl _ _ _ (not_eq_sym Hne) H2) in Ht.
+        exact Ht.
+      + rewrite H1, H2 in *. rewrite (hd_is_excl _ _ _ (not_eq_sym Hne) H1) in *. now symmetry.
+    - intros H op pa pb Hc.
+      destruct (cmp_cols_in _ _ _ _ Hc) as [Hpa Hpb].
+      destruct (pair_read_ok li ri L R on WF l r pa Hl Hr Hpa) as [Ea _].
+      destruct (pair_read_ok li ri L R on WF l r pb Hl Hr Hpb) as [Eb _].
+      apply (proj2 (HF op pa pb l r _ _ Hc Hl Hr Ea Eb)).
+      pose proof (proj1 (map_ext_in_iff _ _ _) H (op, pa, pb) Hc) as Ht. cbn [col_of] in Ht.
+      unfold fraw.
+      destruct (wf_on_cmp _ _ _ _ _ _ Hs Hc) as [[H1 H2]|[H1 H2]].
+      + rewrite H1, (hd_is_excl _ _ _ Hne H1) in *. rewrite (hd_is_excl _ _ _ (not_eq_sym Hne) H2).
+        exact Ht.
+      + rewrite H1, H2 in *. rewrite (hd_is_excl _ _ _ (not_eq_sym Hne) H1) in *. now symmetry.
+  Qed.
+
+  Lemma bm_is_key_eq le re : In le lcat -> In re rcat -> bm li on le re = String.eqb (fst le) (fst re).
+  Proof.
+    intros Hle Hre.
+    destruct HLC as [_ _ HneL _] eqn:E1. destruct HRC as [_ _ HneR _] eqn:E2. clear E1 E2.
+    rewrite Forall_forall in HneL, HneR. pose proof (HneL le Hle) as H1. pose proof (HneR re Hre) as H2.
+    destruct (crows le) as [|l ls] eqn:El; [congruence|]. destruct (crows re) as [|r rs] eqn:Er; [congruence|].
+    assert (Hl : In l (crows le)) by (rewrite El; now left).
+    assert (Hr : In r (crows re)) by (rewrite Er; now left).
+    rewrite <- (bm_rows li ri L R on data WF lcat rcat HLC HRC le re l r Hle Hre Hl Hr).
+    pose proof (cat_rows_in _ _ _ _ _ HLC Hle Hl) as HlL. pose proof (cat_rows_in _ _ _ _ _ HRC Hre Hr) as HrR.
+    destruct WF as [_ _ _ _ _ _ HsL HsR _].
+    destruct (group_key_map _ _ _ _ _ HsL HLC Hle Hl) as [_ K1].
+    destruct (group_key_map _ _ _ _ _ HsR HRC Hre Hr) as [_ K2].
+    fold lcols in K1. fold rcols in K2.
+    destruct (String.eqb (fst le) (fst re)) eqn:E.
+    - apply String.eqb_eq in E. apply (holds_iff_texts l r HlL HrR).
+      rewrite <- E in K2. apply (key_text_faithful_strong _ _ _ K1 K2).
+    - apply String.eqb_neq in E. destruct (holdsp li on l r) eqn:Eh; [|reflexivity].
+      exfalso. apply E. apply (holds_iff_texts l r HlL HrR) in Eh.
+      pose proof (key_text_of_texts _ _ _ K1 Eh) as K3. rewrite K2 in K3. now injection K3.
+  Qed.
+
+  Lemma hash_match_eq_loop inner le : In le lcat ->
+    hash_match inner ri le rcat = loop_match data inner ri on le rcat.
+  Proof.
+    intros Hle. rewrite (loop_match_pure li ri L R on data WF lcat rcat HLC HRC inner le Hle).
+    unfold loopp.
+    rewrite (flat_map_ext_in _ (fun re => if String.eqb (fst le) (fst re) then pairsp (crows le) (crows re) else []))
+      by (intros re Hre; now rewrite bm_is_key_eq).
+    destruct HRC as [_ HndR HneR _] eqn:E2. clear E2.
+    rewrite (flat_map_find (fst le) (pairsp (crows le)) rcat HndR).
+    assert (Hlobj : forall l, In l (crows le) -> is_objv l).
+    { intros l Hl. apply (objL li ri L R on WF). eapply cat_rows_in; eauto. }
+    destruct HLC as [_ _ HneL _] eqn:E1. clear E1. rewrite Forall_forall in HneL, HneR.
+    pose proof (HneL le Hle) as Hlne.
+    destruct le as [k [lkeys lrows]]. cbn [hash_match fst crows snd] in *.
+    destruct (cat_find k rcat) as [[rkeys rrows]|] eqn:Ef.
+    - pose proof (cat_find_in _ _ _ Ef) as Hin.
+      pose proof (HneR _ Hin) as Hrne. cbn in Hrne.
+      rewrite pairs_pure; [| exact Hlobj |].
+      + pose proof (pairsp_nonempty lrows rrows Hlne Hrne). destruct (pairsp lrows rrows); [congruence|reflexivity].
+      + intros r Hr. apply (objR li ri L R on WF). eapply (cat_rows_in _ _ _ (k, (rkeys, rrows))); eauto.
+    - destruct inner; [reflexivity|]. apply mapM_pure. intros l Hl. apply with_null_pure. auto.
+  Qed.
+End HashPure.
+
+(* ------------------------------------------------------------------ *)
+(* Part G: Join.Exec                                                    *)
+(* ------------------------------------------------------------------ *)
+
+Definition join_core (use_hash inner : bool) (L R : list value) (li ri : string)
+           (on : expr stmt) (data : row) : res (list value) :=
+  let! lcat := to_catalog L li ri on in
+  let! rcat := to_catalog R ri li on in
+  let! batches := mapM (fun le => if use_hash then hash_match inner ri le rcat
+                                  else loop_match data inner ri on le rcat) lcat in
+  Ok (List.concat batches).
+
+Definition is_inner (jt : jointype stmt) : bool := match jt with JInner => true | _ => false end.
+Definition uses_hash (st : jstrategy stmt) (on : expr stmt) : bool :=
+  negb (is_straight st) && hash_join_analyze on.
+(* STRAIGHT_JOIN is only defined for inner joins *)
+Definition admissible (jt : jointype stmt) (st : jstrategy stmt) : bool :=
+  negb (is_straight st && negb (is_inner jt)).
+
+Lemma exec_join_core jt st L R lid rid on data :
+  exec_join jt st L R lid rid on data =
+  if admissible jt st then
+    match jt with
+    | JInner => join_core (uses_hash st on) true L R lid rid on data
+    | JLeft => join_core (uses_hash st on) false L R lid rid on data
+    | JRight => join_core (uses_hash st on) false R L rid lid on data
+    end
+  else Err.
+Proof. destruct jt, st; reflexivity. Qed.
+
+Lemma mapM_exists {X Y} (f : X -> res Y) l :
+  (forall x, In x l -> exists y, f x = Ok y) -> exists ys, mapM f l = Ok ys.
+Proof.
+  induction l as [|x l IH]; cbn; intros H; [eauto|].
+  destruct (H x) as [y ->]; auto. destruct IH as [ys ->]; auto. cbn. eauto.
+Qed.
+
+Lemma to_catalog_ok T id id' on cols :
+  join_columns id id' on = Ok cols -> side_ok T cols ->
+  exists cat, to_catalog T id id' on = Ok cat /\ catalog_of cols T cat.
+Proof.
+  intros Hj Hs.
+  assert (exists cat, to_catalog T id id' on = Ok cat) as [cat Hc].
+  { rewrite to_catalog_unfold, Hj. cbn [bind].
+    destruct (mapM_exists (row_key cols) T) as [keyed ->]; [|cbn; eauto].
+    intros r Hr. destruct (row_key_ok _ _ _ Hs Hr) as (k & -> & _). eauto. }
+  exists cat. split; [exact Hc|].
+  destruct (catalog_groups _ _ _ _ _ Hc) as (cols' & Hj' & Hcat). rewrite Hj in Hj'. now injection Hj' as <-.
+Qed.
+
+Section Core.
+  Variables (li ri : string) (L R : list value) (on : expr stmt) (data : row).
+  Hypothesis WF : wf_join li ri L R on.
+
+  Lemma catalogs_ok :
+    exists lcat rcat,
+      to_catalog L li ri on = Ok lcat /\ to_catalog R ri li on = Ok rcat /\
+      catalog_of (map (col_of li) (on_cmps on)) L lcat /\
+      catalog_of (map (col_of ri) (on_cmps on)) R rcat.
+  Proof.
+    pose proof (wf_ne _ _ _ _ _ WF) as Hne. destruct WF as [_ _ _ Hs _ _ HsL HsR _].
+    destruct (to_catalog_ok L li ri on _ (join_columns_wf li ri on Hne Hs) HsL) as (lcat & H1 & H2).
+    assert (Hs' : wf_on ri li on = true) by (now rewrite wf_on_sym).
+    destruct (to_catalog_ok R ri li on _ (join_columns_wf ri li on (not_eq_sym Hne) Hs') HsR) as (rcat & H3 & H4).
+    exists lcat, rcat. auto.
+  Qed.
+
+  (* nested loop against the specification *)
+  Theorem loop_core_eq_spec inner :
+    exists o1 o2, join_core false inner L R li ri on data = Ok o1 /\
+                  left_join data on (negb inner) ri L R = Ok o2 /\ Permutation o1 o2.
+  Proof.
+    destruct catalogs_ok as (lcat & rcat & H1 & H2 & H3 & H4).
+    destruct (loop_core_spec li ri L R on data WF lcat rcat H3 H4 inner) as (out & Ho & Hs & Hp).
+    unfold join_core. rewrite H1, H2. cbn [bind]. rewrite Ho. cbn [bind]. eauto.
+  Qed.
+
+  (* hash path against the nested loop: the same list *)
+  Theorem hash_core_eq_loop inner :
+    hash_faithful li L R on -> hash_join_analyze on = true ->
+    join_core true inner L R li ri on data = join_core false inner L R li ri on data.
+  Proof.
+    intros HF HA. destruct catalogs_ok as (lcat & rcat & H1 & H2 & H3 & H4).
+    unfold join_core. rewrite H1, H2. cbn [bind].
+    rewrite (mapM_ext_in _ (fun le => loop_match data inner ri on le rcat)); [reflexivity|].
+    intros le Hle. now apply (hash_match_eq_loop li ri L R on data WF HF HA lcat rcat H3 H4).
+  Qed.
+End Core.
